@@ -292,6 +292,17 @@ def t_terminate(kind):
     return t
 
 
+def t_float_boundary(h):
+    """BOUNDED, native: A-1 (floats as reals) is probed where a decimal sum decides the kind of a fill (native/C06.py: bounded)"""
+    from pyvc import report as R
+    here = os.path.dirname(os.path.dirname(os.path.abspath(__file__)))
+    res = R.native([os.path.join(here, 'native', 'run.py'), 'C06'], {'bounded': 'decimal-grid'})
+    if res.get('error'):
+        raise RuntimeError(f'bounded native check failed to run: {res}')
+    h.cover('float.pre')
+    h.prove(not res.get('confirmed'), 'float.exit-for-the-decimal-total-closes-the-position', {'detail': res.get('detail'), 'cases': res.get('cases')})
+
+
 def tasks(tier):
     x = dict(spec_mod=SPEC)
     ov = stubs.backtest_mode()
@@ -306,5 +317,6 @@ def tasks(tier):
     # trade timestamps are the clock at the fill: in fast mode the clock must be the end of the minute that reached the price
     import props.C01 as P1
     import props.C02 as P2
+    ts.append(Task('float-boundary', t_float_boundary, extra=dict(x, bounded='98 decimal histories on the grid 0.05..2.2 (native, binary floats)')))
     ts.append(Task('fill-clock.chunk', P1.t_chunk_clock, extra=dict(x, spec_mod=P2.SPEC), overrides=dict(ov)))
     return ts
